@@ -30,6 +30,13 @@ OBS_Q2 = R("obscure_q2", "obscure_q2.cfg", expect_ops=["build", "elide_set", "un
 
 TWIN_Q = R("twin_q", "twin_q.cfg", expect_ops=["build", "assertion_with_digest", "elide", "compress", "add_assertions", "add_assertion_envelope", "remove_assertion"])
 
+QUERY_Q = R("query_q", "query_q.cfg", expect_ops=["obs_structure", "obs_walk", "obs_digests", "obs_lookup", "obs_extract"])
+COMPARE_Q = R("compare_q", "compare_q.cfg", expect_ops=["obs_compare", "encode_decode", "elide_set"])
+COMPRESS_Q = R("compress_q", "compress_q.cfg", expect_ops=["compress", "uncompress", "compress_subject", "uncompress_subject", "forge_compressed", "corrupt"],
+               expect_out=["uncompress:err", "uncompress:ok", "uncompress_subject:ok"])
+ENCRYPT_Q = R("encrypt_q", "encrypt_q.cfg", expect_ops=["encrypt_subject", "decrypt_subject", "encrypt", "decrypt", "forge_encrypted", "tamper"],
+              expect_out=["decrypt_subject:err", "decrypt_subject:ok", "decrypt:ok", "encrypt_subject:err"])
+
 PLAN = {
     "C01": dict(
         rule="every transition TLC explores in the bounded machine (all call sequences up to the depth bound over the listed action families, 2 registers, atoms a1,a2 + known value 1, plus every clear shape of <= 5 elements as input to the obscuring calls) is executed against the real library in several concretisation rounds (atoms -> typed values of every leaf CBOR type); the digest of the result and of every element of it must equal SHA-256 evaluated from the specification's digest term. non-trivial = distinct (call, expected result) pairs whose result has >= 2 elements or is an error",
@@ -57,5 +64,27 @@ PLAN = {
         rule="all insertion sequences of the bounded machine; results compared with the order-free (set based) specification term, byte for byte",
         quick=[CORE_Q, TWIN_Q],
         thorough=[CORE_Q, CORE_ALL3, TWIN_Q],
+    ),
+    "C08": dict(
+        rule="every shape (<= 4 elements, nodes of 5) x keys {k1,k2} x encrypt_subject / encrypt / elide_set(Encrypt), then a key-holding adversary (forge_encrypted: content vs declared digest mismatch for every register pair; tamper: ciphertext / nonce / tag / aad, random bit per round) or add_assertion / second encryption, then decrypt_subject / decrypt with each key",
+        quick=[ENCRYPT_Q],
+        thorough=[ENCRYPT_Q, dict(ENCRYPT_Q, name="encrypt_t", cfg="encrypt_t.cfg", rounds=3)],
+    ),
+    "C13": dict(
+        rule="every shape x {compress, compress_subject, elide_set(Compress)} x {uncompress, uncompress_subject} chains, compressed elements as subject of add_assertion, forged (content, declared digest) pairs for every register pair, corrupt payloads (data bit, checksum, truncation)",
+        quick=[COMPRESS_Q],
+        thorough=[COMPRESS_Q, dict(COMPRESS_Q, name="compress_t", cfg="compress_t.cfg", rounds=3)],
+    ),
+    "C14": dict(
+        rule="all ordered pairs (r1, r2) of registers where the registers hold a shape, an obscured variant of it under each action (one or two obscuring steps), a re-decoded copy or an unrelated shape; is_equivalent_to, is_identical_to, == and structural_digest compared with the specification (structural image evaluated by SHA-256)",
+        quick=[COMPARE_Q],
+    ),
+    "C15": dict(
+        rule="every shape of <= 5 elements, node-subject nodes and decorated assertions, and their obscured variants: both walk modes (visit sequence with level, edge, parent), digests(k) for every k, the predicate lookup family for every simple value / predicate present, typed extraction for 12 types; basic accessors",
+        quick=[QUERY_Q],
+    ),
+    "C16": dict(
+        rule="every call of every configuration runs under catch_unwind; a panic is never an allowed outcome. This check runs the query / lookup / extraction family and the transform / obscure families on every shape, node-subject nodes, decorated (assertion-on-assertion) shapes and their obscured variants",
+        quick=[QUERY_Q, OBS_Q, CORE_ALL3],
     ),
 }
